@@ -10,5 +10,30 @@ Theorem C15_first_max :
   forall (A : Type) (key : A -> N) (x : A) (l : list A), exists (k' : N) (x' : A), fold_left (Stats.upd A key) (x :: l) None = Some (k', x') /\ Stats.is_first_max A key (x :: l) k' x'.
 Proof. exact Stats.first_max_spec. Qed.
 
+Theorem C15_biggest_value_is_first_max :
+  forall bs : list Stats.sblock, Stats.a_bigv (Stats.run bs) = option_map Stats.rec_of (fold_left (Stats.upd (N * Stats.stx) (fun ht : N * Stats.stx => Stats.tx_value (snd ht))) (Stats.all_txs bs) None).
+Proof. exact Stats.biggest_value_spec. Qed.
+
+Theorem C15_biggest_size_is_first_max :
+  forall bs : list Stats.sblock, Stats.a_bigs (Stats.run bs) = option_map Stats.rec_of (fold_left (Stats.upd (N * Stats.stx) (fun ht : N * Stats.stx => Stats.t_size (snd ht))) (Stats.all_txs bs) None).
+Proof. exact Stats.biggest_size_spec. Qed.
+
+Theorem C15_types_count_and_first_occurrence :
+  forall (bs : list Stats.sblock) (p : N), Stats.lookup p (Stats.a_types (Stats.run bs)) = (if Stats.count_tag p (Stats.all_outs bs) =? 0 then None else Some (Stats.count_tag p (Stats.all_outs bs))) /\ Stats.lookup p (Stats.a_first (Stats.run bs)) = Stats.first_tag p (Stats.all_outs bs).
+Proof. exact Stats.types_spec. Qed.
+
+Theorem C15_base_reward :
+  forall h : N, Stats.base_reward h = (if 64 <=? h / 210000 then 0 else 5000000000 / 2 ^ (h / 210000)).
+Proof. exact Stats.base_reward_spec. Qed.
+
+Theorem C15_mean_exact :
+  forall l : list N, Stats.mean l = (Stats.sum (fun x : N => x) l, N.of_nat (length l)).
+Proof. exact Stats.mean_spec. Qed.
+
 Print Assumptions C15_counts_volume_fees_sizes_gaps.
 Print Assumptions C15_first_max.
+Print Assumptions C15_biggest_value_is_first_max.
+Print Assumptions C15_biggest_size_is_first_max.
+Print Assumptions C15_types_count_and_first_occurrence.
+Print Assumptions C15_base_reward.
+Print Assumptions C15_mean_exact.
